@@ -128,6 +128,7 @@ type sideTables struct {
 	origin  map[*value][]value // &x[i] -> x[i:cap]
 	syncMap map[*value]*omap
 	pool    map[*value][]value
+	slept   *term // ghost: total nanoseconds passed to Sleep/After/NewTimer
 }
 
 func newSideTables() *sideTables {
